@@ -4,10 +4,13 @@
    level (each is one public API call).  Shared: the lock state of the data file, the
    sequence of writes the files received (each tagged with the writing handle and the
    lock holder at that time) and the ghost trace of results.
-     locking = true    the code after the repair: GraphEngine::open takes an exclusive
-                       advisory OS lock on the .ndb file and fails if it is taken;
-                       the lock is released when the engine is dropped/closed
-     locking = false   the pinned tree: no lock, every open succeeds *)
+     LockFirst   the code after the repair: GraphEngine::open takes an exclusive advisory OS lock
+                 (on <ndb>.lock) BEFORE it touches the files and fails if it is taken; the lock is
+                 released when the engine is dropped/closed.  A refused open has no effect at all.
+     LockLate    a variant that opens the page file and the log and cuts the log's torn tail first and
+                 takes the lock afterwards: every second open is still refused, but it has already
+                 written to the files of the live handle (kept to show that the theorem sees it)
+     NoLock      the pinned tree: no lock, every open succeeds *)
 From Coq Require Import List ZArith Bool Arith.
 From NDB Require Import Conc.Sched.
 Import ListNotations.
@@ -16,7 +19,11 @@ Import ListNotations.
    database lock, rewrites the files and releases the lock within one call *)
 Inductive hop := HOpen | HCommit (d : Z) | HCompact | HClose | HOffline.
 
-Inductive wop := WCommit (d : Z) | WCompact | WClose | WOffline.
+Inductive wop := WCommit (d : Z) | WCompact | WClose | WOffline | WOpenScan.   (* WOpenScan: what open() itself writes (torn tail cut, header init) *)
+
+Inductive lockmode := LockFirst | LockLate | NoLock.
+Definition locks (m : lockmode) : bool := match m with NoLock => false | _ => true end.
+Definition scan_first (m : lockmode) : bool := match m with LockLate => true | _ => false end.
 
 Inductive hres :=
 | ROpenOk | ROpenRefused | RAlreadyOpen     (* results of HOpen *)
@@ -34,14 +41,15 @@ Record hshared := {
 Definition push (sh : hshared) (t : nat) (r : hres) : list (nat * hres) := results sh ++ [(t, r)].
 
 (* thread-local: is this handle open *)
-Definition hsem (locking : bool) (o : hop) (t : nat) (sh : hshared) (opened : bool) : option (hshared * bool) :=
+Definition hsem (m : lockmode) (o : hop) (t : nat) (sh : hshared) (opened : bool) : option (hshared * bool) :=
   match o with
   | HOpen =>
       if opened then Some ({| lk := lk sh; files := files sh; results := push sh t RAlreadyOpen |}, true)
-      else if locking then
+      else if locks m then
+        let fs := if scan_first m then files sh ++ [(t, lk sh, WOpenScan)] else files sh in
         match lk sh with
-        | None => Some ({| lk := Some t; files := files sh; results := push sh t ROpenOk |}, true)
-        | Some _ => Some ({| lk := lk sh; files := files sh; results := push sh t ROpenRefused |}, false)
+        | None => Some ({| lk := Some t; files := fs; results := push sh t ROpenOk |}, true)
+        | Some _ => Some ({| lk := lk sh; files := fs; results := push sh t ROpenRefused |}, false)
         end
       else Some ({| lk := lk sh; files := files sh; results := push sh t ROpenOk |}, true)
   | HCommit d =>
@@ -51,11 +59,11 @@ Definition hsem (locking : bool) (o : hop) (t : nat) (sh : hshared) (opened : bo
       if opened then Some ({| lk := lk sh; files := files sh ++ [(t, lk sh, WCompact)]; results := push sh t (RWrote WCompact) |}, true)
       else Some ({| lk := lk sh; files := files sh; results := push sh t RNoHandle |}, false)
   | HClose =>
-      if opened then Some ({| lk := if locking then None else lk sh; files := files sh ++ [(t, lk sh, WClose)];
+      if opened then Some ({| lk := if locks m then None else lk sh; files := files sh ++ [(t, lk sh, WClose)];
                               results := push sh t RClosed |}, false)
       else Some ({| lk := lk sh; files := files sh; results := push sh t RNoHandle |}, false)
   | HOffline =>
-      if locking then
+      if locks m then
         match lk sh with
         | None => Some ({| lk := None; files := files sh ++ [(t, Some t, WOffline)]; results := push sh t ROffline |}, opened)
         | Some _ => Some ({| lk := lk sh; files := files sh; results := push sh t ROfflineRefused |}, opened)
@@ -68,7 +76,7 @@ Definition hcfg := cfg hshared bool hop.
 Definition hinit (progs : list (list hop)) : hcfg :=
   {| Sched.shared := {| lk := None; files := []; results := [] |}; threads := pool false progs |}.
 
-Definition hrun (locking : bool) (sched : list nat) (c : hcfg) : hcfg := run (hsem locking) sched c.
+Definition hrun (locking : lockmode) (sched : list nat) (c : hcfg) : hcfg := run (hsem locking) sched c.
 
 (* ---- the specification side: a single handle ----
    `scan` accepts exactly the result traces in which, ignoring refused / no-handle
@@ -104,4 +112,4 @@ Definition writes_by_holder (f : list (nat * option nat * wop)) : bool :=
   forallb (fun e => match e with (t, Some h, _) => Nat.eqb t h | (_, None, _) => false end) f.
 
 (* the code as it is now *)
-Definition current_locking : bool := true.
+Definition current_locking : lockmode := LockFirst.
